@@ -233,7 +233,7 @@ func (r *Report) Finish() int {
 	}
 	// evidence
 	var funcs, inlined, trusted, havocked, unsupp, efffree []string
-	setI, setT, setH, setU, setE := map[string]bool{}, map[string]bool{}, map[string]bool{}, map[string]bool{}, map[string]bool{}
+	setI, setT, setH, setU, setE, setM := map[string]bool{}, map[string]bool{}, map[string]bool{}, map[string]bool{}, map[string]bool{}, map[string]bool{}
 	for _, fr := range r.Results {
 		if fr.Stale {
 			continue
@@ -253,6 +253,9 @@ func (r *Report) Finish() int {
 		}
 		for _, x := range fr.EffFree {
 			setE[x] = true
+		}
+		for _, x := range fr.Immut {
+			setM[compShort(x)] = true
 		}
 	}
 	inlined, trusted, havocked, unsupp, efffree = sortedKeys(setI), sortedKeys(setT), sortedKeys(setH), sortedKeys(setU), sortedKeys(setE)
@@ -276,6 +279,7 @@ func (r *Report) Finish() int {
 		"calls_havocked_without_spec":   havocked,
 		"unsupported_constructs":        unsupp,
 		"undecided_unclaimed":           undecided,
+		"fields_treated_immutable":      sortedKeys(setM),
 		"by_solver":                     bySolver,
 		"solver_ms_total":               solverMs,
 		"obligation_list":               evObs,
@@ -293,6 +297,7 @@ func (r *Report) Finish() int {
 		"calls without contract/spec havoc every heap component; calls to external functions whose arguments are all pure values have no heap effect",
 		"every entry of trusted_base (specs of std/third-party functions, spec functions and their axioms) is assumed, not proved",
 		"termination is not proved",
+		"fields_treated_immutable: in-repo struct fields with no store outside the construction of a fresh object (whole-program scan on every run) keep their value across calls; a store through the constructing function's own local after publication is not detected",
 	}
 	if r.Extra != nil {
 		for k, v := range r.Extra.Coverage {
@@ -385,6 +390,7 @@ type replayFile struct {
 	SMT        string      `json:"smt_script"`
 	Runs       []SolverRun `json:"solver_runs"`
 	Model      string      `json:"model,omitempty"`
+	Values     map[string]string `json:"counterexample,omitempty"`
 	Replay     any         `json:"replay_on_real_code,omitempty"`
 	Note       string      `json:"note"`
 }
@@ -392,7 +398,7 @@ type replayFile struct {
 func (r *Report) writeReplay(dir string, v *Verdict) (string, bool) {
 	os.MkdirAll(dir, 0o755)
 	rf := replayFile{Property: r.Prop, Obligation: v.Ob.Name, Kind: v.Ob.Kind, Clause: v.Ob.Src, Pos: v.Ob.Pos, Status: v.Status,
-		SMT: v.SMTPath, Runs: v.Runs, Model: v.Model}
+		SMT: v.SMTPath, Runs: v.Runs, Model: v.Model, Values: v.Values}
 	reproduced := false
 	if v.Status == "failed" && v.Model != "" {
 		res := TryReplay(r, v)
